@@ -298,8 +298,7 @@ def run(ctx):
     for n_, (tags, sq) in enumerate(seqs):
         sq = [dict(st) for st in sq]
         sq[0]["init"] = 1
-        if n_ % 200 == 0:
-            sq[0]["new"] = 1     # a fresh goleveldb store now and then (deleted versions pile up)
+        sq[0]["new"] = 1     # a goleveldb store per history: the deleted versions of hundreds of fillers pile up otherwise
         runs.append((len(steps), len(sq), "history", tags))
         steps.extend(sq)
     _, behs = ctx.tlc_simulate("PrefixStorage", "PrefixStorage_sim.cfg", num=60 if quick else 800, depth=41)
